@@ -21,7 +21,8 @@ EXTENDS GlomData
 
 CONSTANTS DefMutant,         \* "none" | "first_or_default"                        (mutant of the definition, A)
           PullMutant,        \* "none" | "reverse" | "takewhile_drain" | "tkey_called" | "check_passes" |
-                             \* "sepfn_ignored" | "skey_unscoped" | "filter_ne"     (mechanism mutants, B)
+                             \* "sepfn_ignored" | "skey_unscoped" | "filter_ne" | "unique_identity" | "flatten_skips_falsy"
+                             \*                                                   (mechanism mutants, B)
           BuildMutant        \* "none" | "inplace" | "sharekw" | "dropsentinel"    (mechanism mutants, C;
                              \*   "dropsentinel" = _add_op as it was before commit 54a8dd1)
 
@@ -32,7 +33,11 @@ INF == 999                   \* "not determined inside the horizon"
 \* =====================================================================================
 VList(xs)  == [k |-> "list",  items |-> xs]
 VTuple(xs) == [k |-> "tuple", items |-> xs]
-IsSeqV(v)  == v.k \in {"list", "tuple"}
+\* flist: an instance of a list subclass whose __bool__ is False although it holds data (a truth test is
+\* neither an emptiness nor a None test).  Booleans are items too: True / False are equal to 1 / 0 (==, hash)
+\* but are not the same objects.
+VFList(xs) == [k |-> "flist", items |-> xs]
+IsSeqV(v)  == v.k \in {"list", "tuple", "flist"}
 
 \* two "hostile" items whose own notion of equality must never matter to a pipeline:
 \*   any  : compares equal to everything (mock.ANY-like: == is True, != is False), truthy, unhashable
@@ -40,17 +45,25 @@ IsSeqV(v)  == v.k \in {"list", "tuple"}
 VAny  == [k |-> "any"]
 VNull == [k |-> "null"]
 \* truth value of Python's  a == b  for a stream item a and a plain value b (a.__eq__ decides)
-PyEq(a, b) == IF a.k = "any" THEN TRUE ELSE IF a.k = "null" THEN FALSE ELSE a = b
+\* Python equality of plain values: bool ~ int, a list subclass equals the list with the same items
+RECURSIVE Norm(_)
+Norm(v) == CASE v.k = "bool" -> VInt(IF v.b THEN 1 ELSE 0)
+             [] v.k \in {"list", "flist"} -> VList([j \in 1..Len(v.items) |-> Norm(v.items[j])])
+             [] v.k = "tuple" -> VTuple([j \in 1..Len(v.items) |-> Norm(v.items[j])])
+             [] OTHER -> v
+PyEq(a, b) == IF a.k = "any" THEN TRUE ELSE IF a.k = "null" THEN FALSE ELSE Norm(a) = Norm(b)
 
 Truthy(v) == CASE v.k = "int"  -> v.i # 0
                [] v.k = "none" -> FALSE
                [] v.k = "null" -> FALSE
                [] v.k = "sent" -> FALSE            \* glom's sentinels are falsy
-               [] IsSeqV(v)    -> v.items # <<>>
+               [] v.k = "bool" -> v.b
+               [] v.k = "flist" -> FALSE
+               [] v.k \in {"list", "tuple"} -> v.items # <<>>
                [] OTHER        -> TRUE
 
 RECURSIVE Hashable(_)
-Hashable(v) == CASE v.k \in {"list", "any", "null"} -> FALSE
+Hashable(v) == CASE v.k \in {"list", "flist", "any", "null"} -> FALSE
                  [] v.k = "tuple" -> \A j \in 1..Len(v.items) : Hashable(v.items[j])
                  [] OTHER         -> TRUE
 
@@ -155,8 +168,8 @@ RECURSIVE UniqRun(_, _, _, _, _)
 UniqRun(f, xs, i, seen, acc) ==
   IF i > Len(xs) THEN acc
   ELSE LET k == ApplyFn(f, xs[i]) IN
-       IF InSeq(k, seen) THEN UniqRun(f, xs, i + 1, seen, acc)
-       ELSE UniqRun(f, xs, i + 1, Append(seen, k), Append(acc, xs[i]))
+       IF InSeq(Norm(k), seen) THEN UniqRun(f, xs, i + 1, seen, acc)      \* membership is ==/hash: 1, True agree
+       ELSE UniqRun(f, xs, i + 1, Append(seen, Norm(k)), Append(acc, xs[i]))
 
 RECURSIVE Concat(_, _)
 Concat(xs, i) == IF i > Len(xs) THEN <<>>
@@ -260,8 +273,9 @@ ConsumerEvents(XM, k) == CapEv(XM, k)      \* k calls of next(), stopping at END
 
 \* ---- the prediction record for one (pipe, source): everything the law says ---------------
 \* the (key, default) pairs of first() that are predicted for every case; [p "T", d None] is first()
-FirstVariants == << [p |-> "T", d |-> VNone], [p |-> "notnone", d |-> VInt(7)], [p |-> "even", d |-> VInt(9)],
-                    [p |-> "isempty", d |-> VInt(7)], [p |-> "item0_T", d |-> VInt(7)], [p |-> "lt2_S", d |-> VInt(7)] >>
+\* (falsy defaults on purpose: a default is returned as it is, whatever its truth value)
+FirstVariants == << [p |-> "T", d |-> VNone], [p |-> "notnone", d |-> VInt(7)], [p |-> "even", d |-> VList(<<>>)],
+                    [p |-> "isempty", d |-> VInt(0)], [p |-> "item0_T", d |-> VInt(7)], [p |-> "lt2_S", d |-> VInt(7)] >>
 RECURSIVE FirstTrue(_, _, _)
 FirstTrue(p, xs, i) == IF i > Len(xs) THEN 0 ELSE IF PredFn(p, xs[i]) THEN i ELSE FirstTrue(p, xs, i + 1)
 
@@ -374,9 +388,11 @@ Recv(st, l, v) ==
               ELSE [l EXCEPT !.cnt = @ + 1, !.outq = <<VList(l.buf)>>, !.buf = <<>>]
          ELSE [l EXCEPT !.buf = Append(@, v)]
     [] st.kind = "unique" ->
-         LET k == ApplyFn(st.f, v) IN
-         IF InSeq(k, l.seen) THEN l ELSE [l EXCEPT !.seen = Append(@, k), !.outq = <<v>>]
-    [] st.kind = "flatten" -> [l EXCEPT !.outq = IF IsSeqV(v) THEN v.items ELSE <<>>]
+         LET k == ApplyFn(st.f, v)
+             nk == IF PullMutant = "unique_identity" THEN k ELSE Norm(k)   \* (mutant: 1 and True kept apart)
+         IN IF InSeq(nk, l.seen) THEN l ELSE [l EXCEPT !.seen = Append(@, nk), !.outq = <<v>>]
+    [] st.kind = "flatten" ->                   \* (mutant: "if item:" skips a falsy container that holds data)
+         [l EXCEPT !.outq = IF IsSeqV(v) /\ ~(PullMutant = "flatten_skips_falsy" /\ v.k = "flist") THEN v.items ELSE <<>>]
 
 \* stage st learns that upstream is exhausted
 RecvEnd(st, l) ==
